@@ -183,6 +183,7 @@ func regionCase(c *hx.Ctx, id string, root *node, cf cfg, dev *memdev.Dev) {
 	c.Stat("corr.regions")
 	// the chunking rule of the three lookup tables, where the stored sizes are the payload sizes
 	if !cf.metaCompressed() {
+		tableCases(c, id, root, cf, dev, sb, ino, dir)
 		for _, t := range []struct {
 			name string
 			e, n int
